@@ -3,6 +3,25 @@ From Coq Require Import ZArith List Bool Lia.
 From C29 Require Import ModelField.
 Local Open Scope Z_scope.
 
+Lemma kmul_correct fuel : forall k a b, 0 <= k -> kmul fuel k a b = a * b.
+Proof.
+  induction fuel as [|f IH]; intros k a b Hk; [reflexivity|].
+  cbn [kmul]. cbv zeta.
+  assert (Hk2 : 0 <= Z.shiftr k 1) by (apply Z.shiftr_nonneg; exact Hk).
+  rewrite !IH by exact Hk2.
+  rewrite !Z.land_ones, !Z.shiftr_div_pow2, !Z.shiftl_mul_pow2 by lia.
+  assert (P : 0 < 2 ^ k) by (apply Z.pow_pos_nonneg; lia).
+  pose proof (Z.div_mod a (2 ^ k) ltac:(lia)) as Da.
+  pose proof (Z.div_mod b (2 ^ k) ltac:(lia)) as Db.
+  replace (2 ^ (2 * k)) with (2 ^ k * 2 ^ k) by (rewrite <- Z.pow_add_r by lia; f_equal; lia).
+  set (X := 2 ^ k) in *. set (a1 := a / X) in *. set (a0 := a mod X) in *.
+  set (b1 := b / X) in *. set (b0 := b mod X) in *.
+  transitivity ((X * a1 + a0) * (X * b1 + b0)); [ring|].
+  now rewrite <- Da, <- Db.
+Qed.
+Lemma zmul_correct a b : zmul a b = a * b.
+Proof. apply kmul_correct. lia. Qed.
+
 Section FieldProofs.
   Variables (k c m mask : Z).
   Hypothesis Hk : 0 <= k.
@@ -37,9 +56,9 @@ Section FieldProofs.
   Lemma fadd_correct a b : fadd k c m mask a b = (a + b) mod m.
   Proof. apply fred_correct. Qed.
   Lemma fmul_correct a b : fmul k c m mask a b = (a * b) mod m.
-  Proof. apply fred_correct. Qed.
+  Proof. unfold fmul. rewrite zmul_correct. apply fred_correct. Qed.
   Lemma fsqr_correct a : fsqr k c m mask a = (a * a) mod m.
-  Proof. apply fred_correct. Qed.
+  Proof. unfold fsqr. rewrite zmul_correct. apply fred_correct. Qed.
   Lemma fsub_correct a b : fsub k c m mask a b = (a - b) mod m.
   Proof.
     unfold fsub. rewrite fred_correct.
